@@ -85,6 +85,10 @@ Allowed(st, ev) ==
          IF st.status[ev.s] = "cr" /\ st.inc[ev.s] = ev.k
            THEN ev.out = "ok" /\ ev.found = ev.s
            ELSE ev.out = "abort"
+    [] ev.e = "ptrrt" ->
+         \* storing / loading pointers through sandbox memory of a live sandbox translates
+         \* relative to THAT sandbox, whatever else is on the live list (C04)
+         st.status[ev.s] = "cr" /\ ev.out = "ok"
     [] ev.e = "invoke" ->
          \* by-name invocation runs, exactly once, the function of that name in the
          \* library of the current incarnation
